@@ -1,4 +1,32 @@
-(* Wire interface of Model/OracleRw.v (dispatch numbers 120-129). *)
-From DD Require Import Base.Wire Model.Rewrites Run.RwWire.
+(* Wire interface of Model/OracleRw.v (dispatch numbers 120-129).
+     120 [t]                          ArithmeticStrengthenRelation
+     121 [t]                          BoolXORRemoveConstant
+     122 [t]                          FPShortSort
+     123 [t]                          StringSimplifyConstant
+     124 [t; sels; ctors]             RemoveDatatypeIdentity   sels = [[key; constructor; index] ...], ctors = [key ...]
+     125 [t; isdef; sort; dc]         Constants                sort = [] | [s], dc = [0] | [1; [c ...]]
+     126 [t; isdef; sort; vars]       ReplaceByVariable (inc)  vars = [name ...]
+     127 [t; isdef; sort; vars]       ReplaceByVariable (dec) *)
+From DD Require Import Base.Wire Model.Rewrites Model.OracleRw Run.RwWire.
 Local Open Scope list_scope.
-Definition dispatch_more3 (f : Z) (w : wire) : wire := w_err.
+
+Definition r_osexp (w : wire) : option sexp := match w with WL (s :: _) => Some (r_sexp s) | _ => None end.
+Definition r_olist (w : wire) : option (list sexp) :=
+  match w with WL [WN 1%Z; l] => Some (r_sexps l) | _ => None end.
+Definition r_sels (w : wire) : list (sexp * (sexp * nat)) :=
+  map (fun p => match p with WL [k; c; i] => (r_sexp k, (r_sexp c, r_nat i)) | _ => (T [], (T [], O)) end) (r_list w).
+
+Definition dispatch_more3 (f : Z) (w : wire) : wire :=
+  match f, w with
+  | 120, WL [t] => w_olist (rw_arith_strengthen (r_sexp t))
+  | 121, WL [t] => w_olist (rw_bool_xor_const (r_sexp t))
+  | 122, WL [t] => w_olist (rw_fp_short_sort (r_sexp t))
+  | 123, WL [t] => w_olist (rw_str_simp_const (r_sexp t))
+  | 124, WL [t; sels; ctors] => w_olist (rw_dt_identity (r_sels sels) (r_sexps ctors) (r_sexp t))
+  | 125, WL [t; isdef; sort; dc] => w_olist (rw_constants (r_bool isdef) (r_osexp sort) (r_olist dc) (r_sexp t))
+  | 126, WL [t; isdef; sort; vars] =>
+      w_olist (rw_replace_by_var true (r_bool isdef) (r_osexp sort) (map r_str (r_list vars)) (r_sexp t))
+  | 127, WL [t; isdef; sort; vars] =>
+      w_olist (rw_replace_by_var false (r_bool isdef) (r_osexp sort) (map r_str (r_list vars)) (r_sexp t))
+  | _, _ => w_err
+  end%Z.
